@@ -141,9 +141,8 @@ def build_spec(case, PROP, r):
         return sp
     if mode == 'single':
         for kw, lab, kind, multi in table:
-            before = len(sp['ops'])
+            v = gen.gen_attr(r, t, kw, kind, multi, c.refs())      # (before the object exists: no self-reference)
             i = metagen.make_object(c, t, p=0.0)
-            v = gen.gen_attr(r, t, kw, kind, multi, c.refs())
             if v is not None:
                 sp['ops'][i]['attrs'][kw] = v
                 _repair(c, t, sp['ops'][i])
